@@ -194,4 +194,428 @@ theorem publish_roundtrip (cap off : Nat) (h : PublishHeader) (payload pkt rest 
     simp only [hi0, if_false]
     rw [hblock]
     simp [hflags3]
+/-- PUBACK / PUBREC / PUBREL / PUBCOMP as the client builds them (identifier and reason code). -/
+theorem ack_roundtrip (cap off typ flags id rc : Nat) (pkt rest : Bytes)
+    (htyp : typ = 4 ∨ typ = 5 ∨ typ = 6 ∨ typ = 7) (hflags : flags = if typ = 6 then 2 else 0)
+    (hid : 0 < id ∧ id < 65536) (hrc : rc < 256)
+    (he : encodeWithOffset cap (ackChunks id rc) typ flags = .ok (off, pkt)) :
+    Spec.parseClientPacket (pkt ++ rest) = some (.ack typ id rc [], rest) := by
+  obtain ⟨body, hb, _, hmax, hpkt, _⟩ := encodeWithOffset_ok he
+  subst hpkt
+  have ht16 : typ < 16 := by omega
+  have hf16 : flags < 16 := by subst hflags; split <;> omega
+  rw [parseClientPacket_frame typ flags _ rest ht16 hf16 hmax]
+  unfold ackChunks at hb
+  obtain ⟨x1, r1, h1, hr1, ho1⟩ := catChunks_cons hb
+  obtain ⟨x2, r2, h2, hr2, ho2⟩ := catChunks_cons hr1
+  have := catChunks_nil hr2
+  simp at h1 h2
+  subst this h1 h2 ho2 ho1
+  have hn3 : (typ = 3) = False := by simp; omega
+  have hn1 : (typ = 1) = False := by simp; omega
+  have h4567 : (typ = 4 ∨ typ = 5 ∨ typ = 6 ∨ typ = 7) = True := by simp [htyp]
+  have h4567' : (typ = 4 || typ = 5 || typ = 6 || typ = 7) = true := by
+    rcases htyp with h | h | h | h <;> subst h <;> rfl
+  have hfl : (flags ≠ if typ = 6 then 2 else 0) = False := by simp [hflags]
+  simp only [Spec.parseBody, hn3, hn1, if_false, h4567', if_true, hfl]
+  rw [spec_u16 _ _ hid.2]
+  have hi0 : (id = 0) = False := by simp; omega
+  simp only [hi0, if_false, List.append_nil]
+  simp [b_toNat]; omega
+
+/-- PINGREQ. -/
+theorem pingreq_roundtrip (cap off : Nat) (pkt rest : Bytes)
+    (he : encodeWithOffset cap [] MT_PingReq FLAGS_PingReq = .ok (off, pkt)) :
+    Spec.parseClientPacket (pkt ++ rest) = some (.pingreq, rest) := by
+  obtain ⟨body, hb, _, hmax, hpkt, _⟩ := encodeWithOffset_ok he
+  subst hpkt
+  have := catChunks_nil hb
+  subst this
+  rw [parseClientPacket_frame MT_PingReq FLAGS_PingReq _ rest (by decide) (by decide) hmax]
+  simp [Spec.parseBody, MT_PingReq, FLAGS_PingReq]
+
+/-- DISCONNECT: reason code and properties exactly as requested (an absent reason code is 0). -/
+theorem disconnect_roundtrip (cap off : Nat) (d : Disconnect) (pkt rest : Bytes)
+    (hrc : ∀ rc, d.reason = some rc → rc < 256)
+    (hshape : d.props.isSome = true → d.reason.isSome = true)
+    (hwf : ∀ ps, d.props = some ps → ∀ p ∈ ps, p.wf = true)
+    (hlegal : ∀ ps, d.props = some ps → ∀ p ∈ ps, Spec.allowedIn .disconnect p.kind.id = true ∧
+        Spec.legalValue p.kind.id p.toSpec.val.num = true)
+    (he : encodeWithOffset cap d.chunks MT_Disconnect FLAGS_Disconnect = .ok (off, pkt)) :
+    Spec.parseClientPacket (pkt ++ rest) =
+      some (.disconnect (d.reason.getD 0) ((d.props.getD []).map Property.toSpec), rest) := by
+  obtain ⟨body, hb, _, hmax, hpkt, _⟩ := encodeWithOffset_ok he
+  subst hpkt
+  rw [parseClientPacket_frame MT_Disconnect FLAGS_Disconnect _ rest (by decide) (by decide) hmax]
+  unfold Disconnect.chunks at hb
+  obtain ⟨a, c, ha, hc, hac⟩ := catChunks_append hb
+  subst hac
+  simp only [Spec.parseBody, show MT_Disconnect = 14 from rfl, show FLAGS_Disconnect = 0 from rfl]
+  simp only [show (14 = 3) = False by simp, show (14 = 1) = False by simp, if_false, Bool.or_eq_true, decide_eq_true_eq,
+    show (14 = 8) = False by simp,
+    show (14 = 10) = False by simp, show (14 = 12) = False by simp, if_true, ne_eq, not_true_eq_false]
+  cases hr : d.reason with
+  | none =>
+    rw [hr] at ha
+    have := catChunks_nil ha
+    subst this
+    cases hp : d.props with
+    | none =>
+      rw [hp] at hc
+      have := catChunks_nil hc
+      subst this
+      simp
+    | some ps => rw [hp, hr] at hshape; simp at hshape
+  | some rc =>
+    rw [hr] at ha
+    obtain ⟨x1, r1, h1, hr1, ho1⟩ := catChunks_cons ha
+    have := catChunks_nil hr1
+    simp at h1
+    subst this h1 ho1
+    have hrc' := hrc rc hr
+    cases hp : d.props with
+    | none =>
+      rw [hp] at hc
+      have := catChunks_nil hc
+      subst this
+      simp [b_toNat]; omega
+    | some ps =>
+      rw [hp] at hc
+      have hblock := spec_props_block .disconnect (.slice ps) c [] rfl
+        (by simpa [Properties.items] using hwf ps hp) (by simpa [Properties.items] using hlegal ps hp) hc
+      simp only [List.append_nil] at hblock
+      obtain ⟨x, body, hx, hbody, ho⟩ := catChunks_cons hc
+      obtain ⟨hx1, _⟩ := varintField_ok hx
+      have hne : c ≠ [] := by
+        subst ho hx1
+        intro hcon
+        have := congrArg List.length hcon
+        simp [encodeVarint_length] at this
+        unfold varintLen Gen.varintLen at this
+        split at this <;> (try split at this) <;> (try split at this) <;> omega
+      cases hcc : c with
+      | nil => exact absurd hcc hne
+      | cons c0 cs =>
+        simp only [List.cons_append, List.nil_append, List.append_nil]
+        rw [← hcc, hblock]
+        simp [Properties.items, b_toNat]; omega
+def TopicFilter.toSpec (t : TopicFilter) : Spec.Filter :=
+  { topic := t.topic, maxQos := t.opts.maxQos, noLocal := t.opts.noLocal, rap := t.opts.rap, rh := t.opts.rh }
+
+def SubOpts.wf (o : SubOpts) : Bool := o.maxQos ≤ 2 && o.rh ≤ 2
+
+/-- The subscription options byte carries exactly the four options (all 3×2×2×3 combinations). -/
+theorem subopts_byte (o : SubOpts) (h : o.wf = true) :
+    o.byte < 64 ∧ o.byte % 4 ≠ 3 ∧ o.byte / 16 % 4 ≠ 3 ∧ o.byte % 4 = o.maxQos ∧
+    (o.byte / 4 % 2 = 1 ↔ o.noLocal = true) ∧ (o.byte / 8 % 2 = 1 ↔ o.rap = true) ∧ o.byte / 16 % 4 = o.rh := by
+  obtain ⟨q, nl, rap, rh⟩ := o
+  simp [SubOpts.wf] at h
+  simp only [SubOpts.byte]
+  cases nl <;> cases rap <;> simp <;> omega
+
+theorem spec_filters_encode (ts : List TopicFilter) (out : Bytes) (fuel : Nat)
+    (hwf : ∀ t ∈ ts, validUtf8 t.topic = true ∧ t.opts.wf = true)
+    (h : catChunks (ts.flatMap (fun t => [lenPrefixed t.topic, .ok [b t.opts.byte]])) = .ok out)
+    (hf : out.length ≤ fuel) :
+    Spec.filtersFuel fuel out = some (ts.map TopicFilter.toSpec) := by
+  induction ts generalizing out fuel with
+  | nil =>
+    simp [catChunks] at h; subst h
+    cases fuel <;> simp [Spec.filtersFuel]
+  | cons t ts ih =>
+    simp only [List.flatMap_cons] at h
+    obtain ⟨a, c, ha, hc, hac⟩ := catChunks_append h
+    obtain ⟨x1, r1, h1, hr1, ho1⟩ := catChunks_cons ha
+    obtain ⟨x2, r2, h2, hr2, ho2⟩ := catChunks_cons hr1
+    have := catChunks_nil hr2
+    obtain ⟨e1, l1⟩ := lenPrefixed_ok h1
+    simp at h2
+    subst this e1 h2 ho2 ho1 hac
+    obtain ⟨hv, ho⟩ := hwf t (by simp)
+    obtain ⟨b1, b2, b3, b4, b5, b6, b7⟩ := subopts_byte t.opts ho
+    cases fuel with
+    | zero => simp [u16be] at hf
+    | succ fuel =>
+      simp only [List.append_assoc, List.cons_append, List.nil_append, List.append_nil]
+      have hne : u16be t.topic.length ++ (t.topic ++ (b t.opts.byte :: c)) ≠ [] := by simp [u16be]
+      cases hcc : u16be t.topic.length ++ (t.topic ++ (b t.opts.byte :: c)) with
+      | nil => exact absurd hcc hne
+      | cons y ys =>
+        rw [Spec.filtersFuel, ← hcc, spec_str _ _ l1 hv]
+        · simp only []
+          have hb : (b t.opts.byte).toNat = t.opts.byte := by rw [b_toNat]; omega
+          rw [hb]
+          have hcond : (t.opts.byte ≥ 64 || t.opts.byte % 4 = 3 || t.opts.byte / 16 % 4 = 3) = false := by
+            simp; omega
+          simp only [hcond, Bool.false_eq_true, if_false]
+          rw [ih c fuel (fun t' ht' => hwf t' (by simp [ht'])) hc (by simp [u16be] at hf; omega)]
+          simp [TopicFilter.toSpec, b4, b7]
+          constructor
+          · cases hnl : t.opts.noLocal <;> simp_all
+          · cases hr : t.opts.rap <;> simp_all
+        · simp
+
+theorem spec_topics_encode (ts : List Bytes) (out : Bytes) (fuel : Nat)
+    (hwf : ∀ t ∈ ts, validUtf8 t = true)
+    (h : catChunks (ts.map lenPrefixed) = .ok out) (hf : out.length ≤ fuel) :
+    Spec.topicsFuel fuel out = some ts := by
+  induction ts generalizing out fuel with
+  | nil =>
+    simp [catChunks] at h; subst h
+    cases fuel <;> simp [Spec.topicsFuel]
+  | cons t ts ih =>
+    simp only [List.map_cons] at h
+    obtain ⟨x1, r1, h1, hr1, ho1⟩ := catChunks_cons h
+    obtain ⟨e1, l1⟩ := lenPrefixed_ok h1
+    subst e1 ho1
+    cases fuel with
+    | zero => simp [u16be] at hf
+    | succ fuel =>
+      simp only [List.append_assoc]
+      have hne : u16be t.length ++ (t ++ r1) ≠ [] := by simp [u16be]
+      cases hcc : u16be t.length ++ (t ++ r1) with
+      | nil => exact absurd hcc hne
+      | cons y ys =>
+        rw [Spec.topicsFuel, ← hcc, spec_str _ _ l1 (hwf t (by simp))]
+        · simp only []
+          rw [ih r1 fuel (fun t' ht' => hwf t' (by simp [ht'])) hr1 (by simp [u16be] at hf; omega)]
+          simp
+        · simp
+
+/-- SUBSCRIBE: identifier, properties and every filter with its four options. -/
+theorem subscribe_roundtrip (cap off id : Nat) (props : List Property) (ts : List TopicFilter) (pkt rest : Bytes)
+    (hid : 0 < id ∧ id < 65536) (hne : ts ≠ [])
+    (hts : ∀ t ∈ ts, validUtf8 t.topic = true ∧ t.opts.wf = true)
+    (hwf : ∀ p ∈ props, p.wf = true)
+    (hlegal : ∀ p ∈ props, Spec.allowedIn .subscribe p.kind.id = true ∧
+        Spec.legalValue p.kind.id p.toSpec.val.num = true)
+    (he : encodeWithOffset cap (subscribeChunks id (.slice props) ts) MT_Subscribe FLAGS_Subscribe = .ok (off, pkt)) :
+    Spec.parseClientPacket (pkt ++ rest) =
+      some (.subscribe id (props.map Property.toSpec) (ts.map TopicFilter.toSpec), rest) := by
+  obtain ⟨body, hb, _, hmax, hpkt, _⟩ := encodeWithOffset_ok he
+  subst hpkt
+  rw [parseClientPacket_frame MT_Subscribe FLAGS_Subscribe _ rest (by decide) (by decide) hmax]
+  unfold subscribeChunks at hb
+  obtain ⟨a, c, ha, hc, hac⟩ := catChunks_append hb
+  obtain ⟨a1, a2, ha1, ha2, ha12⟩ := catChunks_append ha
+  obtain ⟨x1, r1, h1, hr1, ho1⟩ := catChunks_cons ha1
+  have := catChunks_nil hr1
+  simp at h1
+  subst this h1 ho1 ha12 hac
+  have hblock := spec_props_block .subscribe (.slice props) a2 c rfl
+    (by simpa [Properties.items] using hwf) (by simpa [Properties.items] using hlegal) ha2
+  simp only [Spec.parseBody, show MT_Subscribe = 8 from rfl, show FLAGS_Subscribe = 2 from rfl]
+  simp only [show (8 = 3) = False by simp, show (8 = 1) = False by simp, if_false,
+    show (8 = 4 || 8 = 5 || 8 = 6 || 8 = 7) = false by rfl, Bool.false_eq_true, if_true, ne_eq, not_true_eq_false,
+    List.append_assoc, List.append_nil]
+  rw [spec_u16 _ _ hid.2]
+  have hi0 : (id = 0) = False := by simp; omega
+  simp only [hi0, if_false]
+  rw [hblock]
+  simp only [Properties.items]
+  rw [spec_filters_encode ts c c.length hts hc (Nat.le_refl _)]
+  cases ts with
+  | nil => exact absurd rfl hne
+  | cons t ts => simp
+
+/-- UNSUBSCRIBE: identifier, properties and every topic filter. -/
+theorem unsubscribe_roundtrip (cap off id : Nat) (props : List Property) (ts : List Bytes) (pkt rest : Bytes)
+    (hid : 0 < id ∧ id < 65536) (hne : ts ≠ [])
+    (hts : ∀ t ∈ ts, validUtf8 t = true)
+    (hwf : ∀ p ∈ props, p.wf = true)
+    (hlegal : ∀ p ∈ props, Spec.allowedIn .unsubscribe p.kind.id = true ∧
+        Spec.legalValue p.kind.id p.toSpec.val.num = true)
+    (he : encodeWithOffset cap (unsubscribeChunks id (.slice props) ts) MT_Unsubscribe FLAGS_Unsubscribe = .ok (off, pkt)) :
+    Spec.parseClientPacket (pkt ++ rest) = some (.unsubscribe id (props.map Property.toSpec) ts, rest) := by
+  obtain ⟨body, hb, _, hmax, hpkt, _⟩ := encodeWithOffset_ok he
+  subst hpkt
+  rw [parseClientPacket_frame MT_Unsubscribe FLAGS_Unsubscribe _ rest (by decide) (by decide) hmax]
+  unfold unsubscribeChunks at hb
+  obtain ⟨a, c, ha, hc, hac⟩ := catChunks_append hb
+  obtain ⟨a1, a2, ha1, ha2, ha12⟩ := catChunks_append ha
+  obtain ⟨x1, r1, h1, hr1, ho1⟩ := catChunks_cons ha1
+  have := catChunks_nil hr1
+  simp at h1
+  subst this h1 ho1 ha12 hac
+  have hblock := spec_props_block .unsubscribe (.slice props) a2 c rfl
+    (by simpa [Properties.items] using hwf) (by simpa [Properties.items] using hlegal) ha2
+  simp only [Spec.parseBody, show MT_Unsubscribe = 10 from rfl, show FLAGS_Unsubscribe = 2 from rfl]
+  simp only [show (10 = 3) = False by simp, show (10 = 1) = False by simp, if_false,
+    show (10 = 4 || 10 = 5 || 10 = 6 || 10 = 7) = false by rfl, Bool.false_eq_true,
+    show (10 = 8) = False by simp, if_true, ne_eq, not_true_eq_false,
+    List.append_assoc, List.append_nil]
+  rw [spec_u16 _ _ hid.2]
+  have hi0 : (id = 0) = False := by simp; omega
+  simp only [hi0, if_false]
+  rw [hblock]
+  simp only [Properties.items]
+  rw [spec_topics_encode ts c c.length hts hc (Nat.le_refl _)]
+  cases ts with
+  | nil => exact absurd rfl hne
+  | cons t ts => simp
+def Will.toSpec (w : Will) : Spec.Will :=
+  { props := w.props.map Property.toSpec, topic := w.topic, payload := w.data, qos := w.qos, retain := w.retained }
+
+theorem connect_flags (c : Connect) (hq : ∀ w, c.will = some w → w.qos ≤ 2) :
+    c.flags < 256 ∧ c.flags % 2 = 0 ∧ (c.flags / 2 % 2 = 1 ↔ c.cleanStart = true) ∧
+    (c.flags / 4 % 2 = 1 ↔ c.will.isSome = true) ∧
+    c.flags / 8 % 4 = (match c.will with | some w => w.qos | none => 0) ∧
+    (c.flags / 32 % 2 = 1 ↔ (match c.will with | some w => w.retained = true | none => False)) ∧
+    (c.flags / 64 % 2 = 1 ↔ c.auth.isSome = true) ∧ (c.flags / 128 % 2 = 1 ↔ c.auth.isSome = true) := by
+  unfold Connect.flags
+  cases hw : c.will with
+  | none =>
+    cases c.cleanStart <;> cases c.auth <;> simp
+  | some w =>
+    have := hq w hw
+    obtain ⟨wt, wd, wq, wr, wp⟩ := w
+    simp only [] at this
+    cases c.cleanStart <;> cases c.auth <;> cases wr <;> simp <;> omega
+
+/-- CONNECT: client identifier, clean start, keep-alive, properties, will (QoS, retain, properties,
+topic, payload), user name and password are decoded by the reference exactly as configured. -/
+theorem connect_roundtrip (cap off : Nat) (c : Connect) (ps : List Property) (pkt rest : Bytes)
+    (hka : c.keepalive < 65536) (hcid : validUtf8 c.clientId = true)
+    (hprops : c.props = .slice ps)
+    (hwf : ∀ p ∈ ps, p.wf = true)
+    (hlegal : ∀ p ∈ ps, Spec.allowedIn .connect p.kind.id = true ∧ Spec.legalValue p.kind.id p.toSpec.val.num = true)
+    (hwill : ∀ w, c.will = some w → w.qos ≤ 2 ∧ validUtf8 w.topic = true ∧ (∀ p ∈ w.props, p.wf = true) ∧
+        (∀ p ∈ w.props, Spec.allowedIn .will p.kind.id = true ∧ Spec.legalValue p.kind.id p.toSpec.val.num = true))
+    (hauth : ∀ a, c.auth = some a → validUtf8 a.user = true)
+    (he : encodeConnect cap c = .ok (off, pkt)) :
+    Spec.parseClientPacket (pkt ++ rest) =
+      some (.connect c.cleanStart c.keepalive (ps.map Property.toSpec) c.clientId (c.will.map Will.toSpec)
+              (c.auth.map (·.user)) (c.auth.map (·.pass)), rest) := by
+  unfold encodeConnect at he
+  obtain ⟨body, hb, _, hmax, hpkt, _⟩ := encodeWithOffset_ok he
+  subst hpkt
+  rw [parseClientPacket_frame MT_Connect FLAGS_Connect _ rest (by decide) (by decide) hmax]
+  obtain ⟨f1, f2, f3, f4, f5, f6, f7, f8⟩ := connect_flags c (fun w hw => (hwill w hw).1)
+  unfold Connect.chunks at hb
+  obtain ⟨abc, authb, habc, hauthb, e1⟩ := catChunks_append hb
+  obtain ⟨ab, willb, hab, hwillb, e2⟩ := catChunks_append habc
+  obtain ⟨a, cidb, ha, hcidb, e3⟩ := catChunks_append hab
+  obtain ⟨fixedb, propb, hfixed, hpropb, e4⟩ := catChunks_append ha
+  -- fixed part
+  obtain ⟨x1, r1, h1, hr1, o1⟩ := catChunks_cons hfixed
+  obtain ⟨x2, r2, h2, hr2, o2⟩ := catChunks_cons hr1
+  obtain ⟨x3, r3, h3, hr3, o3⟩ := catChunks_cons hr2
+  obtain ⟨x4, r4, h4, hr4, o4⟩ := catChunks_cons hr3
+  have n1 := catChunks_nil hr4
+  obtain ⟨hx1, _⟩ := lenPrefixed_ok h1
+  simp at h2 h3 h4
+  -- client id
+  obtain ⟨y1, s1, g1, gs1, p1⟩ := catChunks_cons hcidb
+  have n2 := catChunks_nil gs1
+  obtain ⟨hy1, ly1⟩ := lenPrefixed_ok g1
+  subst n1 hx1 h2 h3 h4 o4 o3 o2 o1 n2 hy1 p1 e4 e3 e2 e1
+  rw [hprops] at hpropb
+  have hblock := fun r => spec_props_block .connect (.slice ps) propb r rfl
+    (by simpa [Properties.items] using hwf) (by simpa [Properties.items] using hlegal) hpropb
+  simp only [Spec.parseBody, show MT_Connect = 1 from rfl, show FLAGS_Connect = 0 from rfl,
+    show (1 = 3) = False by simp, if_false, if_true, ne_eq, not_true_eq_false, List.append_assoc, List.append_nil,
+    List.cons_append, List.nil_append]
+  have hname : Spec.bin (u16be ([0x4d, 0x51, 0x54, 0x54] : Bytes).length ++ (([0x4d, 0x51, 0x54, 0x54] : Bytes) ++
+      (5 :: b c.flags :: (u16be c.keepalive ++ (propb ++ (u16be c.clientId.length ++ (c.clientId ++ (willb ++ authb)))))))) =
+      some ([0x4d, 0x51, 0x54, 0x54], 5 :: b c.flags :: (u16be c.keepalive ++ (propb ++ (u16be c.clientId.length ++ (c.clientId ++ (willb ++ authb)))))) :=
+    spec_bin _ _ (by simp)
+  simp only [List.cons_append, List.nil_append, List.append_assoc] at hname
+  rw [hname]
+  have hbf : (b c.flags).toNat = c.flags := by rw [b_toNat]; omega
+  simp only [show ((5 : UInt8).toNat ≠ 5) = False by simp, if_false, hbf, f2, show (0 = 1) = False by simp, if_true]
+  simp only [not_true_eq_false, if_false]
+  rw [spec_u16 _ _ hka]
+  simp only []
+  rw [hblock]
+  simp only [Properties.items]
+  rw [spec_str _ _ ly1 hcid]
+  simp only []
+  cases hw : c.will with
+  | none =>
+    rw [hw] at hwillb f4 f5 f6
+    have := catChunks_nil hwillb
+    subst this
+    have g4 : (c.flags / 4 % 2 = 1) = False := by simpa using f4
+    have g5 : c.flags / 8 % 4 = 0 := by simpa using f5
+    have g6 : (c.flags / 32 % 2 = 1) = False := by simpa using f6
+    simp only [g4, g5, g6, if_false, decide_false, decide_true, Bool.not_false, Bool.true_and, Bool.or_false,
+      show (¬ (0 = 0)) = False by simp, show (0 = 3) = False by simp, Bool.false_eq_true, List.nil_append]
+    cases hau : c.auth with
+    | none =>
+      rw [hau] at hauthb f7 f8
+      have := catChunks_nil hauthb
+      subst this
+      have g7 : (c.flags / 64 % 2 = 1) = False := by simpa using f7
+      have g8 : (c.flags / 128 % 2 = 1) = False := by simpa using f8
+      simp only [g7, g8, if_false, List.isEmpty_nil, if_true]
+      cases hcs : c.cleanStart <;> simp_all
+    | some au =>
+      rw [hau] at hauthb f7 f8
+      obtain ⟨u1, ur1, hu1, hur1, ou1⟩ := catChunks_cons hauthb
+      obtain ⟨u2, ur2, hu2, hur2, ou2⟩ := catChunks_cons hur1
+      have := catChunks_nil hur2
+      obtain ⟨eu1, lu1⟩ := lenPrefixed_ok hu1
+      obtain ⟨eu2, lu2⟩ := lenPrefixed_ok hu2
+      subst this eu1 eu2 ou2 ou1
+      have g7 : (c.flags / 64 % 2 = 1) = True := by simpa using f7
+      have g8 : (c.flags / 128 % 2 = 1) = True := by simpa using f8
+      simp only [g7, g8, if_true, List.append_assoc, List.append_nil]
+      rw [spec_str _ _ lu1 (hauth au hau)]
+      simp only [Option.map]
+      have := spec_bin au.pass [] lu2
+      simp only [List.append_nil] at this
+      rw [this]
+      simp only [List.isEmpty_nil, if_true]
+      cases hcs : c.cleanStart <;> simp_all
+  | some w =>
+    rw [hw] at hwillb f4 f5 f6
+    obtain ⟨hwq, hwt, hwwf, hwlegal⟩ := hwill w hw
+    unfold Will.chunks at hwillb
+    obtain ⟨wpb, wrest, hwpb, hwrest, ew⟩ := catChunks_append hwillb
+    obtain ⟨t1, tr1, ht1, htr1, ot1⟩ := catChunks_cons hwrest
+    obtain ⟨t2, tr2, ht2, htr2, ot2⟩ := catChunks_cons htr1
+    have := catChunks_nil htr2
+    obtain ⟨et1, lt1⟩ := lenPrefixed_ok ht1
+    obtain ⟨et2, lt2⟩ := lenPrefixed_ok ht2
+    subst this et1 et2 ot2 ot1 ew
+    have hwblock := fun r => spec_props_block .will (.slice w.props) wpb r rfl
+      (by simpa [Properties.items] using hwwf) (by simpa [Properties.items] using hwlegal) hwpb
+    have g4 : (c.flags / 4 % 2 = 1) = True := by simpa using f4
+    have g5 : c.flags / 8 % 4 = w.qos := by simpa using f5
+    have hq3 : (w.qos = 3) = False := by simp; omega
+    simp only [g4, g5, hq3, if_true, decide_true, decide_false, Bool.not_true, Bool.false_and, Bool.or_false,
+      Bool.false_eq_true, if_false, List.append_assoc, List.append_nil]
+    rw [hwblock]
+    simp only [Properties.items]
+    rw [spec_str _ _ lt1 hwt]
+    simp only []
+    rw [spec_bin _ _ lt2]
+    simp only []
+    cases hau : c.auth with
+    | none =>
+      rw [hau] at hauthb f7 f8
+      have := catChunks_nil hauthb
+      subst this
+      have g7 : (c.flags / 64 % 2 = 1) = False := by simpa using f7
+      have g8 : (c.flags / 128 % 2 = 1) = False := by simpa using f8
+      simp only [g7, g8, if_false, List.isEmpty_nil, if_true]
+      cases hcs : c.cleanStart <;> cases hr : w.retained <;> simp_all [Will.toSpec]
+    | some au =>
+      rw [hau] at hauthb f7 f8
+      obtain ⟨u1, ur1, hu1, hur1, ou1⟩ := catChunks_cons hauthb
+      obtain ⟨u2, ur2, hu2, hur2, ou2⟩ := catChunks_cons hur1
+      have := catChunks_nil hur2
+      obtain ⟨eu1, lu1⟩ := lenPrefixed_ok hu1
+      obtain ⟨eu2, lu2⟩ := lenPrefixed_ok hu2
+      subst this eu1 eu2 ou2 ou1
+      have g7 : (c.flags / 64 % 2 = 1) = True := by simpa using f7
+      have g8 : (c.flags / 128 % 2 = 1) = True := by simpa using f8
+      simp only [g7, g8, if_true, List.append_assoc, List.append_nil]
+      rw [spec_str _ _ lu1 (hauth au hau)]
+      simp only [Option.map]
+      have := spec_bin au.pass [] lu2
+      simp only [List.append_nil] at this
+      rw [this]
+      simp only [List.isEmpty_nil, if_true]
+      cases hcs : c.cleanStart <;> cases hr : w.retained <;> simp_all [Will.toSpec]
 end Minimq
